@@ -3,6 +3,7 @@ package c04
 import (
 	"fmt"
 	"net"
+	"os"
 	"sync"
 	"sync/atomic"
 	"testing"
@@ -26,9 +27,50 @@ type Case struct {
 	DelayUs   int    `json:"peer_delay_us"`
 	NPoller   int    `json:"npoller"`
 	Repeat    int    `json:"repeat,omitempty"` // the Sizes list is issued this many times (0 = once): many queue entries
+	// API: how the bytes are handed over at the origin: write (default), writev (two buffers), sendfile
+	// (from a file), mixed (rotating)
+	API string `json:"api,omitempty"`
 }
 
 const window = 4 * time.Second
+
+func apiOf(api string, i int) string {
+	switch api {
+	case "writev", "sendfile":
+		return api
+	case "mixed":
+		return []string{"sendfile", "write", "writev"}[i%3]
+	}
+	return "write"
+}
+
+// sendVia hands data to the connection through the drawn API; a Sendfile reads it from a scratch file.
+func sendVia(conn *nbio.Conn, api string, i int, data []byte) (int, error) {
+	switch apiOf(api, i) {
+	case "writev":
+		h := len(data) / 2
+		return conn.Writev([][]byte{data[:h], data[h:]})
+	case "sendfile":
+		if len(data) == 0 {
+			return 0, nil
+		}
+		f, err := os.CreateTemp("", "c04sf")
+		if err != nil {
+			return 0, fmt.Errorf("harness: temp file: %v", err)
+		}
+		defer os.Remove(f.Name())
+		defer f.Close()
+		if _, err := f.Write(data); err != nil {
+			return 0, fmt.Errorf("harness: temp file: %v", err)
+		}
+		if _, err := f.Seek(0, 0); err != nil {
+			return 0, fmt.Errorf("harness: temp file: %v", err)
+		}
+		n, err := conn.Sendfile(f, int64(len(data)))
+		return int(n), err
+	}
+	return conn.Write(data)
+}
 
 var Origins = []string{"goroutine", "onopen", "ondata", "onclose-other", "timer"}
 
@@ -55,10 +97,10 @@ func runCase(c Case) vlib.Result {
 	doWrites := func(conn *nbio.Conn) {
 		once.Do(func() {
 			pos := int64(0)
-			for _, s := range c.Sizes {
-				n, err := conn.Write(vlib.FillTagged(0, pos, s))
+			for i, s := range c.Sizes {
+				n, err := sendVia(conn, c.API, i, vlib.FillTagged(0, pos, s))
 				if err != nil || n != s {
-					writeErr.Store(fmt.Sprintf("Write(%d) returned (%d, %v)", s, n, err))
+					writeErr.Store(fmt.Sprintf("%s of %d bytes returned (%d, %v)", apiOf(c.API, i), s, n, err))
 					return
 				}
 				pos += int64(s)
@@ -193,6 +235,9 @@ func cells() []Case {
 			for _, o := range Origins {
 				out = append(out, Case{Transport: tr, Mode: m, Origin: o, Sizes: []int{1 << 20, 300000}, SndBuf: 8192, RcvBuf: 8192, PauseMs: 20, ReadChunk: 65536, DelayUs: 0, NPoller: 1})
 			}
+			for _, o := range []string{"onopen", "goroutine", "ondata"} {
+				out = append(out, Case{Transport: tr, Mode: m, Origin: o, API: "sendfile", Sizes: []int{4 << 20}, SndBuf: 8192, RcvBuf: 8192, PauseMs: 20, ReadChunk: 65536, DelayUs: 0, NPoller: 1})
+			}
 			// deep backlog (hundreds of queue entries), autotuned kernel buffers and a peer that first
 			// lets everything pile up and then reads as fast as it can: one writability event is followed
 			// by a long run of successful writes
@@ -214,6 +259,7 @@ func gen(t *rapid.T) Case {
 	c.ReadChunk = rapid.SampledFrom([]int{512, 4096, 65536, 1 << 20}).Draw(t, "readchunk")
 	c.DelayUs = rapid.SampledFrom([]int{0, 0, 50, 500, 3000}).Draw(t, "delayus")
 	c.NPoller = rapid.IntRange(1, 3).Draw(t, "npoller")
+	c.API = rapid.SampledFrom([]string{"", "", "writev", "sendfile", "mixed"}).Draw(t, "api")
 	if rapid.IntRange(0, 4).Draw(t, "deepfast") == 0 {
 		// deep backlog, autotuned buffers, fast reader (see cells)
 		// every write is bigger than half the 64 KiB coalescing limit, so each one is a queue entry of its own
